@@ -18,10 +18,11 @@ RULE = ('Rule-based state machine holding ONE recorder + in-memory cassette and 
         '(the "threads" steps of every program run on these same threads). Rules: run a generated program with an '
         'optional fault (ends by return / ordinary exception / interrupt in the operation or inside an intercepted body, '
         'also on a pool thread / discard / sampled out (rate 0) / forced sampling / key or handler failure / failing save '
-        '/ failing extractor); play() of a saved recording (ok; operation raising in replay), of a missing id, with a '
+        '/ failing extractor / misconfigured recording parameters whose sampling rate cannot be evaluated when the '
+        'operation ends); play() of a saved recording (ok; operation raising in replay), of a missing id, with a '
         'program requesting a missing key, with a playback function that raises; enable/disable recording. Oracle: '
         'after every rule the recorder is idle (not recording, not replaying, no current recording id, no forced '
-        'sampling); operations never fail with framework errors; PROBE rule: a generated probe program (main-thread and '
+        'sampling); operations never fail with framework errors (except for the misconfigured parameters); PROBE rule: a generated probe program (main-thread and '
         'pool-thread interceptions) is recorded and replayed on this recorder and on a fresh recorder with a fresh '
         'cassette: stored keys, data, metadata (minus duration/timestamp/ids) and Playback outputs must be equal. '
         'A second part uses as history one threaded operation (workers that discard, force sampling and intercept) run '
@@ -193,7 +194,8 @@ class Interp(object):
         n0 = len(self.cas.spy_log)
         out = PS.execute(cls, prog)
         self.cas.fail_save = False
-        if out[0] == 'exc' and out[1] not in ('Err',):
+        if out[0] == 'exc' and out[1] not in ('Err',) and not (
+                flags.get('bad_params') and out[1] in ('RuntimeError', 'TypeError')):
             raise Violation('operation failed with %s: %s (history state leaked into this run?)' % (out[1], out[2]),
                             'operation-fails')
         log = self.cas.spy_log[n0:]
@@ -343,7 +345,7 @@ def make_machine(ctx):
         def run_op(self, prog, fault, use_fault, params, data):
             faults = []
             if use_fault:
-                top = [f for f in FR.applicable_faults(prog) if f.get('at', 0) <= len(prog['steps']) and
+                top = [f for f in FR.applicable_faults(prog, extra=('bad_params',)) if f.get('at', 0) <= len(prog['steps']) and
                        ('at' not in f or f['kind'] in FR.INSERTS or prog['steps'][f['at']]['t'] in ('in', 'out'))]
                 if top:
                     faults = [top[fault % len(top)]]
